@@ -29,6 +29,10 @@ def run_unit(spec, tier):
         r = units.run_verus(spec['unit'])
     elif kind == 'bx':
         r = units.run_bx(spec['name'], spec['strategy'], spec.get('bounds') or BX_BOUNDS[tier], tier)
+    elif kind == 'bxv':
+        r = units.run_bx_vec(spec['name'], 14 if tier == 'thorough' else 10)
+    elif kind == 'gkn':
+        r = units.run_gk_native(spec['name'])
     elif kind == 'bxd':
         r = units.run_bx_determinism(spec['name'], 6 if tier == 'thorough' else 5)
     elif kind == 'bxt':
@@ -127,6 +131,16 @@ def make_replay(pid, spec, r, f, tier):
     os.makedirs(d, exist_ok=True)
     stamp = time.strftime('%Y%m%d-%H%M%S')
     base = os.path.join(d, '%s-%s-%s-%d' % (pid, r.name, stamp, len(os.listdir(d))))
+    if f.get('vec_case') is not None:
+        path = base + '.json'
+        json.dump({'kind': 'bx-vec', 'property': pid, 'case': f['vec_case'], 'clauses': f['clauses'], 'unit': r.name,
+                   'how': './check --replay <this file>: executes this one case natively against /repo\'s try_convert_vec_in_place'}, open(path, 'w'), indent=1)
+        return path, True
+    if f.get('native_harness') is not None:
+        path = base + '.json'
+        json.dump({'kind': 'gk-native', 'property': pid, 'harness': f['native_harness'], 'clauses': f['clauses'], 'unit': r.name,
+                   'how': './check --replay <this file>: regenerates the corpus from /repo and runs this one native harness (a concrete execution of the generated code)'}, open(path, 'w'), indent=1)
+        return path, True
     if f.get('det_case') is not None:
         path = base + '.json'
         json.dump({'kind': 'bx-determinism', 'property': pid, 'case': f['det_case'], 'clauses': f['clauses'], 'unit': r.name, 'tier': tier,
@@ -273,27 +287,32 @@ K_DATA = dict(RT, name='kani-data-primitives', harnesses=['data::'], flags=[], m
 
 PROPERTIES['C08'] = {
     'level': 'model_checking',
-    'units': lambda tier: [dict(K_C08, env=rt_n(tier), bounded=RT_BOUND.replace('<= 4 (<= 3', '<= %s (<= %d' % (rt_n(tier)['VERIF_CONVERT_N'], int(rt_n(tier)['VERIF_CONVERT_N']) - 1)))],
+    'units': lambda tier: [dict(K_C08, env=rt_n(tier), bounded=RT_BOUND.replace('<= 4 (<= 3', '<= %s (<= %d' % (rt_n(tier)['VERIF_CONVERT_N'], int(rt_n(tier)['VERIF_CONVERT_N']) - 1))), BXV],
     'explanation': 'Contract of try_convert_vec_in_place / convert_vec_in_place checked by Kani on the real function with a specification '
                    'converter (asserts: called once per element, in order, with the most recent output; may modify it) and symbolic '
                    'keep/abandon/modify pattern: result = produced values in order, same allocation, same capacity, no leak.',
-    'unchecked': ['lengths > 4', 'compiled-with-optimisation clause (MIR semantics only)'],
+    'unchecked': ['lengths > 4 (Kani; the native stand-in convert-failing-converter re-checks result contents, order and the previous-output argument for every converted/abandoned pattern up to length 10, thorough 14, in an optimised build)',
+                  'compiled-with-optimisation clause: Kani sees MIR semantics only; the native stand-in runs an optimised build, which is an observation within its bound, not a proof'],
 }
+BXV = {'kind': 'bxv', 'name': 'convert-failing-converter'}
 PROPERTIES['C09'] = {
     'level': 'model_checking',
-    'units': lambda tier: [dict(K_C09, env=rt_n(tier), bounded=RT_BOUND.replace('<= 4 (<= 3', '<= %s (<= %d' % (rt_n(tier)['VERIF_CONVERT_N'], int(rt_n(tier)['VERIF_CONVERT_N']) - 1)))],
+    'units': lambda tier: [dict(K_C09, env=rt_n(tier), bounded=RT_BOUND.replace('<= 4 (<= 3', '<= %s (<= %d' % (rt_n(tier)['VERIF_CONVERT_N'], int(rt_n(tier)['VERIF_CONVERT_N']) - 1))), BXV],
     'explanation': 'Error-return arm: failure at a symbolic position after a symbolic keep/abandon/modify prefix; every input and every '
                    'produced output dropped exactly once (ghost drop counters), converter not called again, same error value, allocation '
-                   'released (CBMC memory-leak check).',
-    'unchecked': ['panic half of the property: Kani has no unwinding, so payload identity and drops during unwinding are not decidable here '
-                  '(the cleanup closure and buffer release are the same code on both arms)'],
+                   'released (CBMC memory-leak check). Panic half: Kani has no unwinding, so no obligation can express it; the bounded stand-in '
+                   'convert-failing-converter executes the real function natively for every length <= 10 (thorough 14), failure position, preceding pattern, '
+                   'failure kind (error, panic) and phase (at once, after dropping the input, after building the output) over four element families and checks '
+                   'the drop ledger, the call counter, a counting allocator and the identity of the error value / panic payload.',
+    'unchecked': ['panic half of the property: covered only by the native bounded stand-in (not a deductive obligation)'],
 }
 PROPERTIES['C10'] = {
     'level': 'model_checking',
-    'units': lambda tier: [K_C10],
+    'units': lambda tier: [K_C10, BXV],
     'explanation': 'Per mismatching type pair the harness must fail with exactly the size (or alignment) assertion of the real function and '
                    'the cover inside the converter must be unsatisfiable; matching pairs are the C08 harnesses (assertions pass, covers reachable).',
-    'unchecked': ['"dropped normally after the panic": Kani stops at the panic; what is checked is that the point where the vector is taken out of the drop machinery (ManuallyDrop::new, marked by a cfg(kani) cover) is unreachable before the refusal'],
+    'unchecked': ['"dropped normally after the panic": Kani stops at the panic; what it checks is that the point where the vector is taken out of the drop machinery (ManuallyDrop::new, marked by a cfg(kani) cover) is unreachable before the refusal. '
+                  'The bounded stand-in convert-failing-converter additionally executes seven mismatching pairs natively for every length <= 10 and checks the refusal, zero converter calls, each input dropped exactly once, no heap left'],
 }
 
 V_BUILDER = {'kind': 'verus', 'unit': 'builder', 'cex': 'bx-builder'}
@@ -330,7 +349,7 @@ GK = {'kind': 'kani', 'name': 'gk-corpus', 'crate': 'gk', 'repo_crates': ['truc'
       'flags': ['--cbmc-args', '--memory-leak-check'], 'tier_env': 'GK_TIER', 'env': {'GK_DUMP_DIR': os.path.join(BUILD, 'gk-gen'), 'GK_SEED': str(int(os.environ.get('VERIF_SEED', '0') or 0))},
       'expect': {'.': {'covers': 'any'}}, 'min_harnesses': 40, 'timeout': 6000,
       'functions': ['generated new / new_uninit / unpack / accessors / Drop / 4 x From / clone / clone_from of every corpus module (emitted by truc::generator::generate on this run)'],
-      'assumptions': ['corpus of definitions (quick: 5 fixed + 2 random modules drawn from VERIF_SEED; thorough: 7 fixed + 12 random): the "all generated modules" quantifier is sampled; the generator itself (codegen, format!, itertools) is outside both verifiers',
+      'assumptions': ['corpus of definitions (quick: 9 fixed + 2 random modules drawn from VERIF_SEED; thorough: 12 fixed + 12 random): the "all generated modules" quantifier is sampled; the generator itself (codegen, format!, itertools) is outside both verifiers',
                       'per module each harness is straight-line over full-domain symbolic field values: complete for that module']}
 CALLSITES = {'kind': 'callsites', 'name': 'c07-callsites'}
 
@@ -397,10 +416,13 @@ PROPERTIES['C15'] = {
                   'field types of the serde modules are limited to u8/u16/u32/u64 and a droppable user type',
                   'one corpus module carries the fragment (three variants incl. an empty-of-droppables one)'],
 }
+GKN = {'kind': 'gkn', 'name': 'gk-native-panics'}
 PROPERTIES['C16'] = {
-    'level': 'model_checking', 'units': lambda tier: [GK],
-    'explanation': GK_EXPL + 'clone has equal fields, mutating or dropping either side leaves the other intact, clone_from makes the target equal and destroys its previous contents exactly once.',
-    'unchecked': ['"a panic inside a field\'s clone leaks or double-drops nothing": needs unwinding, which Kani does not model'],
+    'level': 'model_checking', 'units': lambda tier: [GK, GKN],
+    'explanation': GK_EXPL + 'clone has equal fields, mutating or dropping either side leaves the other intact, clone_from makes the target equal and destroys its previous contents exactly once. '
+                   'Panic clause: Kani does not unwind, so no obligation can express it; bounded stand-in gk-native-panics executes the real generated clone / clone_from natively with a panic '
+                   'injected into the j-th clone of a droppable field, for every j, and checks the ghost drop ledger (nothing leaked, nothing destroyed twice, source intact).',
+    'unchecked': ['"a panic inside a field\'s clone leaks or double-drops nothing" is covered only by the native bounded stand-in (fixed field values, corpus modules); it is not a deductive obligation'],
 }
 
 INCRATE = {'kind': 'kani', 'crate': 'incrate', 'repo_crates': ['truc', 'truc_runtime'], 'flags': [],
